@@ -6,7 +6,7 @@ from collections import defaultdict
 from werkzeug.utils import cached_property
 from werkzeug.wrappers import BaseResponse
 
-from ..sinter import make_chain, get_arg_names, compile_code
+from ..sinter import make_chain, get_arg_names, compile_code, get_free_name
 
 _INNER_NAME = 'next'
 
@@ -194,12 +194,12 @@ def make_middleware_chain(middlewares, endpoint, render, preprovided):
 _REQ_INNER_TMPL = \
 '''
 def process_request({all_args}):
-    __traceback_hide__ = True
-    context = endpoint({endpoint_args})
-    if isinstance(context, BaseResponse):
+    {hide_str}
+    context = {endpoint}({endpoint_args})
+    if isinstance(context, {response_type}):
         resp = context
     else:
-        resp = render({render_args})
+        resp = {render}({render_args})
     return resp
 '''
 
@@ -214,9 +214,23 @@ def _create_request_inner(endpoint, render, all_args,
     ep_args_str = _named_arg_str(endpoint_args)
     rn_args_str = _named_arg_str(render_args)
 
+    # the names the generated code uses for itself must not be
+    # shadowed by its own arguments
+    taken = set(all_args) | set(['context'])
+    ep_name = get_free_name('endpoint', taken)
+    rn_name = get_free_name('render', taken)
+    rt_name = get_free_name('BaseResponse', taken)
+    hide_str = '__traceback_hide__ = True'
+    if '__traceback_hide__' in taken:
+        hide_str = 'pass'
+
     code_str = _REQ_INNER_TMPL.format(all_args=all_args_str,
+                                      hide_str=hide_str,
+                                      endpoint=ep_name,
                                       endpoint_args=ep_args_str,
+                                      response_type=rt_name,
+                                      render=rn_name,
                                       render_args=rn_args_str)
-    env = {'endpoint': endpoint, 'render': render, 'BaseResponse': BaseResponse}
+    env = {ep_name: endpoint, rn_name: render, rt_name: BaseResponse}
 
     return compile_code(code_str, name='process_request', env=env)
